@@ -250,7 +250,9 @@ var hostileValues = func() []interface{} {
 	return []interface{}{nil, true, 0, -1, 1e308, "", "x", []interface{}{}, map[string]interface{}{}, []interface{}{[]interface{}{}}, map[string]interface{}{"a": map[string]interface{}{}},
 		strings.Repeat("A", 1<<16), deep,
 		// member names related by prefix / empty / non-ASCII, and extreme numbers: valid JSON the canonicalizer must digest
-		map[string]interface{}{"": 0, "a": 1, "ab": 2, "abc": 3, "id": "x", "idx": "y", "\u00e9": 4, "\U0001F600": 5, "n": 1e21, "m": 5e-324, "k": -0.0}}
+		map[string]interface{}{"": 0, "a": 1, "ab": 2, "abc": 3, "id": "x", "idx": "y", "\u00e9": 4, "\U0001F600": 5, "n": 1e21, "m": 5e-324, "k": -0.0},
+		// long texts of multi-byte characters (more bytes than characters): whatever quotes them in a message or cuts them to size
+		strings.Repeat("\u20ac", 100), strings.Repeat("\u00e9", 300), strings.Repeat("\U0001F600", 70) + "x", "a" + strings.Repeat("\u20ac", 255)}
 }()
 
 // corruptions enumerates variants of v with each position replaced by each hostile value (or removed).
